@@ -178,6 +178,9 @@ func c11Proc(c *lab.Ctx) {
 		c11Case{"hup-longlived-Http2", syscall.SIGHUP, "Http2", "longlived"},
 		c11Case{"term-longlived-bolt", syscall.SIGTERM, "bolt", "longlived"},
 		c11Case{"hup-inflight-Http1", syscall.SIGHUP, "Http1", "waiting"},
+		// the rest of the body arrives only after the old process has handed the connection over and exited
+		c11Case{"hup-bodylate-bolt", syscall.SIGHUP, "bolt", "body-late"},
+		c11Case{"hup-bodylate-big-bolt", syscall.SIGHUP, "bolt", "body-late-big"},
 		// controls: the same scenario without any signal must succeed, otherwise the scenario itself is broken (inconclusive)
 		c11Case{"ctl-bodyhalf-Http1", 0, "Http1", "body-half"},
 		c11Case{"ctl-resphalf-Http1", 0, "Http1", "resp-half"},
@@ -189,6 +192,10 @@ func c11Proc(c *lab.Ctx) {
 			c11Case{"term-longlived-Http2", syscall.SIGTERM, "Http2", "longlived"},
 			c11Case{"term-bodyhalf-Http2", syscall.SIGTERM, "Http2", "body-half"},
 			c11Case{"hup-bodyhalf-bolt", syscall.SIGHUP, "bolt", "body-half"},
+			// not handed over: the rest of the body arrives 7 s after the signal, inside the old process's drain window
+			// (it stops accepting 3 s after the signal and may then drain for --drain-time-s 6)
+			c11Case{"hup-bodyslow-Http1", syscall.SIGHUP, "Http1", "body-slow"},
+			c11Case{"hup-bodyslow-Http2", syscall.SIGHUP, "Http2", "body-slow"},
 			c11Case{"hup-bodyhalf-Http2", syscall.SIGHUP, "Http2", "body-half"},
 			c11Case{"ctl-bodyhalf-bolt", 0, "bolt", "body-half"},
 			c11Case{"ctl-bodyhalf-Http2", 0, "Http2", "body-half"},
@@ -264,7 +271,7 @@ func c11Term(c *lab.Ctx, cs c11Case, mp *mosnProc) {
 		}
 	case "body-half":
 		// HTTP/1: headers + half of the body are on the wire when the signal arrives, the rest follows afterwards
-		go func() { done <- c11Split(mp, cs.proto, tok, "ok", signalled) }()
+		go func() { done <- c11Split(mp, cs.proto, tok, "ok", signalled, nil) }()
 		time.Sleep(300 * time.Millisecond) // the first half is written immediately; MOSN has it in its read buffer
 	case "longlived":
 		var stop int32
@@ -395,17 +402,36 @@ func c11Loop(mp *mosnProc, cs c11Case, stop *int32, strict bool, signalled chan 
 }
 
 // c11Split sends a request whose body (64 KiB) is half on the wire when the signal arrives; the rest follows 200 ms later.
-func c11Split(mp *mosnProc, proto, tok, plan string, signalled chan struct{}) clEvent {
-	switch proto {
-	case "bolt":
-		return c11SplitBolt(mp, tok, plan, signalled)
-	case "Http2":
-		return c11SplitHTTP2(mp, tok, plan, signalled)
-	}
-	return c11SplitHTTP1(mp, tok, plan, signalled)
+// c11Late: for the "body-late" phases the rest of the body is only written once `late` is closed (the old process has exited, i.e.
+// after the connection was handed over), and the bolt frame can be large (640 KiB, all but its last 2 KiB buffered by the old process).
+type c11Late struct {
+	gate chan struct{}
+	big  bool
 }
 
-func c11SplitBolt(mp *mosnProc, tok, plan string, signalled chan struct{}) clEvent {
+func (l *c11Late) wait() {
+	if l == nil || l.gate == nil {
+		time.Sleep(200 * time.Millisecond)
+		return
+	}
+	select {
+	case <-l.gate:
+	case <-time.After(90 * time.Second):
+	}
+	time.Sleep(300 * time.Millisecond)
+}
+
+func c11Split(mp *mosnProc, proto, tok, plan string, signalled chan struct{}, late *c11Late) clEvent {
+	switch proto {
+	case "bolt":
+		return c11SplitBolt(mp, tok, plan, signalled, late)
+	case "Http2":
+		return c11SplitHTTP2(mp, tok, plan, signalled, late)
+	}
+	return c11SplitHTTP1(mp, tok, plan, signalled, late)
+}
+
+func c11SplitBolt(mp *mosnProc, tok, plan string, signalled chan struct{}, late *c11Late) clEvent {
 	ev := clEvent{Token: tok, Proto: "bolt"}
 	cn, err := net.DialTimeout("tcp", mp.addr("bolt"), 2*time.Second)
 	if err != nil {
@@ -416,17 +442,27 @@ func c11SplitBolt(mp *mosnProc, tok, plan string, signalled chan struct{}) clEve
 	hdrs := [][2][]byte{{[]byte("x-verif-token"), []byte(tok)}, {[]byte("service"), []byte("g")}, {[]byte("x-verif-plan"), []byte(plan)}}
 	frame := buildBolt(boltFields{Ver1: 1, CmdType: 1, CmdCode: 1, Ver: 1, ID: 77, Codec: 1, TimeoutOrS: 20000, Class: []byte("com.verif.Req"),
 		HeaderBlk: boltHeaderBlock(hdrs), Content: bytes.Repeat([]byte("b"), 64*1024)})
-	if _, err := cn.Write(frame[:len(frame)/2]); err != nil {
+	cut := len(frame) / 2
+	if late != nil && late.big {
+		big := make([]byte, 640*1024)
+		for i := range big {
+			big[i] = byte(i*7 + i>>9)
+		}
+		frame = buildBolt(boltFields{Ver1: 1, CmdType: 1, CmdCode: 1, Ver: 1, ID: 77, Codec: 1, TimeoutOrS: 60000, Class: []byte("com.verif.Req"),
+			HeaderBlk: boltHeaderBlock(hdrs), Content: big})
+		cut = len(frame) - 2048
+	}
+	if _, err := cn.Write(frame[:cut]); err != nil {
 		ev.Kind, ev.Err = "closed", err.Error()
 		return ev
 	}
 	<-signalled
-	time.Sleep(200 * time.Millisecond)
-	if _, err := cn.Write(frame[len(frame)/2:]); err != nil {
+	late.wait()
+	if _, err := cn.Write(frame[cut:]); err != nil {
 		ev.Kind, ev.Err = "closed", "second half: "+err.Error()
 		return ev
 	}
-	_ = cn.SetReadDeadline(time.Now().Add(25 * time.Second))
+	_ = cn.SetReadDeadline(time.Now().Add(40 * time.Second))
 	var acc []byte
 	tmp := make([]byte, 1<<16)
 	for {
@@ -460,6 +496,7 @@ type gatedBody struct {
 	data      []byte
 	off       int
 	signalled chan struct{}
+	late      *c11Late
 }
 
 func (g *gatedBody) Read(p []byte) (int, error) {
@@ -472,21 +509,21 @@ func (g *gatedBody) Read(p []byte) (int, error) {
 		end = half
 	} else if g.off == half {
 		<-g.signalled
-		time.Sleep(200 * time.Millisecond)
+		g.late.wait()
 	}
 	n := copy(p, g.data[g.off:end])
 	g.off += n
 	return n, nil
 }
 
-func c11SplitHTTP2(mp *mosnProc, tok, plan string, signalled chan struct{}) clEvent {
+func c11SplitHTTP2(mp *mosnProc, tok, plan string, signalled chan struct{}, late *c11Late) clEvent {
 	ev := clEvent{Token: tok, Proto: "Http2"}
 	cl := newHTTP2Client(mp.log, "split", mp.addr("Http2"))
 	defer cl.close()
-	ctx, cancel := context.WithTimeout(context.Background(), 30*time.Second)
+	ctx, cancel := context.WithTimeout(context.Background(), 150*time.Second)
 	defer cancel()
 	// 24 KiB: within the initial flow-control window, so the first half really is on the wire before the signal
-	req, err := http.NewRequestWithContext(ctx, "POST", "http://"+mp.addr("Http2")+"/g/x", &gatedBody{data: bytes.Repeat([]byte("b"), 24*1024), signalled: signalled})
+	req, err := http.NewRequestWithContext(ctx, "POST", "http://"+mp.addr("Http2")+"/g/x", &gatedBody{data: bytes.Repeat([]byte("b"), 24*1024), signalled: signalled, late: late})
 	if err != nil {
 		ev.Kind, ev.Err = "error", err.Error()
 		return ev
@@ -511,7 +548,7 @@ func c11SplitHTTP2(mp *mosnProc, tok, plan string, signalled chan struct{}) clEv
 }
 
 // c11SplitHTTP1 writes the request line, headers and half of a 64 KiB body, waits for the signal, writes the rest.
-func c11SplitHTTP1(mp *mosnProc, tok, plan string, signalled chan struct{}) clEvent {
+func c11SplitHTTP1(mp *mosnProc, tok, plan string, signalled chan struct{}, late *c11Late) clEvent {
 	ev := clEvent{Token: tok, Proto: "Http1"}
 	cn, err := net.DialTimeout("tcp", mp.addr("Http1"), 2*time.Second)
 	if err != nil {
@@ -526,12 +563,12 @@ func c11SplitHTTP1(mp *mosnProc, tok, plan string, signalled chan struct{}) clEv
 		return ev
 	}
 	<-signalled
-	time.Sleep(200 * time.Millisecond)
+	late.wait()
 	if _, err := cn.Write(body[len(body)/2:]); err != nil {
 		ev.Kind, ev.Err = "closed", "second half: "+err.Error()
 		return ev
 	}
-	_ = cn.SetReadDeadline(time.Now().Add(25 * time.Second))
+	_ = cn.SetReadDeadline(time.Now().Add(40 * time.Second))
 	resp, err := http.ReadResponse(bufio.NewReader(cn), &http.Request{Method: "POST"})
 	if err != nil {
 		ev.Kind, ev.Err = "closed", err.Error()
@@ -612,6 +649,7 @@ func c11Hup(c *lab.Ctx, cs c11Case, mp *mosnProc) {
 		fmu.Unlock()
 	}
 	signalled := make(chan struct{})
+	var late *c11Late
 	inflight := make(chan clEvent, 1)
 	tok := "pivot-" + cs.name
 	switch cs.phase {
@@ -651,7 +689,7 @@ func c11Hup(c *lab.Ctx, cs c11Case, mp *mosnProc) {
 				addFail(f)
 			}
 		}()
-	case "waiting", "body-half":
+	case "waiting", "body-half", "body-late", "body-late-big", "body-slow":
 		if cs.phase == "waiting" {
 			cl := mp.client(cs.proto, "pivot")
 			go func() { inflight <- cl.do(reqFor(cs.proto, "g", tok, "d2500:ok")) }()
@@ -660,30 +698,45 @@ func c11Hup(c *lab.Ctx, cs c11Case, mp *mosnProc) {
 				return
 			}
 		} else {
-			go func() { inflight <- c11Split(mp, cs.proto, tok, "ok", signalled) }()
+			if cs.phase != "body-half" {
+				late = &c11Late{gate: make(chan struct{}), big: cs.phase == "body-late-big"}
+			}
+			go func() { inflight <- c11Split(mp, cs.proto, tok, "ok", signalled, late) }()
 			time.Sleep(300 * time.Millisecond)
+			if late != nil && late.big {
+				time.Sleep(700 * time.Millisecond) // 640 KiB through loopback into the proxy's read buffer
+			}
 		}
 	}
 	if cs.phase == "newconns" || cs.phase == "longlived" {
 		time.Sleep(700 * time.Millisecond) // some traffic before the signal
 	}
-	c11Jitter(c, cs, map[string]int{"waiting": 2000, "body-half": 300, "newconns": 400, "longlived": 400}[cs.phase])
+	c11Jitter(c, cs, map[string]int{"waiting": 2000, "body-half": 300, "body-late": 300, "body-late-big": 300, "body-slow": 300, "newconns": 400, "longlived": 400}[cs.phase])
 	_ = mp.cmd.Process.Signal(syscall.SIGHUP)
 	close(signalled)
+	if late != nil && cs.phase == "body-slow" {
+		go func(g chan struct{}) {
+			time.Sleep(7 * time.Second)
+			close(g)
+		}(late.gate)
+	}
 	// the hand-over window: until the old process has exited (it drains, then leaves) + a tail on the new process
 	select {
 	case <-mp.done:
 	case <-time.After(60 * time.Second):
 		c.Violation("old-process-exits", "C11/old-process-still-running/"+sig, cs.name+": the old process still runs 60 s after SIGHUP", wit())
 	}
+	if late != nil && cs.phase != "body-slow" {
+		close(late.gate) // the old process is gone: whatever is still to be sent goes to the process that now owns the connection
+	}
 	time.Sleep(1500 * time.Millisecond)
 	atomic.StoreInt32(&stop, 1)
 	wg.Wait()
-	if cs.phase == "waiting" || cs.phase == "body-half" {
+	if cs.phase == "waiting" || strings.HasPrefix(cs.phase, "body-") {
 		var ev clEvent
 		select {
 		case ev = <-inflight:
-		case <-time.After(30 * time.Second):
+		case <-time.After(60 * time.Second):
 			ev = clEvent{Kind: "open"}
 		}
 		c.Distinct(fmt.Sprintf("%s|%s%d", sig, ev.Kind, ev.Status))
